@@ -25,10 +25,12 @@ divdiff(const double* x, const double* y, size_t n)
 	    / (x[n-1] - x[0]));
 }
 
-unsigned int
+/* In floating point: 13! no longer fits 32 bits, and the order of a table
+ * rises every time it is convolved */
+double
 factorial(unsigned int n)
 {
-	unsigned int acc = 1;
+	double acc = 1;
 	
 	for (unsigned int i = n ; i > 1; i--)
 		acc *= i;
